@@ -1,8 +1,9 @@
 SPECIFICATION Spec
 CONSTANTS
   Handles = {1, 2}
-  MaxSteps = 5
+  MaxSteps = 7
   Emit = TRUE
+  Counted = TRUE
 VIEW View
 INVARIANTS HandleSafe ClosedOnce NoLeak RefsExact
 CHECK_DEADLOCK FALSE
